@@ -50,7 +50,7 @@ FAULT_OPS = ("gc", "alloc", "pool")
 PROBES = [
     "reused_address_still_cached", "legit_cache_hit_possible", "eviction_ran",
     "process_pool_used", "lookalike_neighbours_in_batch",
-    "second_fit_same_reactor", "entry_dict_edited_between_fits", "nested_parallel", "crash_mid_fit",
+    "second_fit_same_reactor", "entry_dict_edited_between_fits", "twin_reactor_other_worker_count", "nested_parallel", "crash_mid_fit",
     "cluster_batched", "validate_parallel", "validate_tautomer_sensitive_pair", "validate_aromaticity_sensitive_pair", "dataframe_with_permuted_index", "balance_parallel", "crn_parallel",
 ]
 REAL = ["synkit.Synthesis.Reactor.batch_reactor (BatchReactor, _RuleApplier, _apply_rule_raw)",
@@ -337,7 +337,19 @@ def _run(case: Dict[str, Any], sim: Sim, world: World) -> None:
                           dedupe=op["dedupe"], entry_n_jobs=op["entry_jobs"], rule_n_jobs=op["rule_jobs"],
                           parallel_rules=op["parallel_rules"], allow_nested=op["allow_nested"],
                           cache_enabled=op["cache"], cache_maxsize=op["maxsize"], enable_logging=False)
-        reactors[slot] = {"br": br, "cfg": op, "entries": ent, "fits": 0, "data": data}
+        twin = None
+        twin_data = None
+        if op["as_dict"]:
+            # a twin that differs only in the number of entry workers: whatever the library does with entries that the
+            # caller edits between fits, it must do the same for every worker count
+            twin_data = [dict(d) for d in data]
+            twin = BatchReactor(twin_data, host_key="smi", react_engine="syn",
+                                explicit_h=explicit_h, implicit_temp=implicit_temp, strategy=op["strategy"],
+                                dedupe=op["dedupe"], entry_n_jobs=(2 if op["entry_jobs"] == 1 else 1), rule_n_jobs=op["rule_jobs"],
+                                parallel_rules=op["parallel_rules"], allow_nested=op["allow_nested"],
+                                cache_enabled=op["cache"], cache_maxsize=op["maxsize"], enable_logging=False)
+        reactors[slot] = {"br": br, "cfg": op, "entries": ent, "fits": 0, "data": data, "twin": twin, "twin_data": twin_data,
+                          "built_with": list(ent), "edited": set()}
         fams = {e.split(".")[-1] for e in ent}
         if len(set(ent)) > 1 and len(fams) < len(set(ent)):
             sim.probe("lookalike_neighbours_in_batch")
@@ -391,6 +403,10 @@ def _run(case: Dict[str, Any], sim: Sim, world: World) -> None:
             sim.probe("crash_mid_fit")
             sim.event("fit", {"slot": slot, "out": "TerminatedWorkerError"})
             return
+        out_twin = None
+        if R.get("twin") is not None and world.pool_cfg.get("crash_at") is None:
+            out_twin = R["twin"].fit(arg, invert=op["invert"])
+            sim.probe("twin_reactor_other_worker_count")
         del arg
         world._fitting = None
         if not isinstance(out, list) or len(out) != len(R["entries"]):
@@ -410,6 +426,18 @@ def _run(case: Dict[str, Any], sim: Sim, world: World) -> None:
             if got is None:
                 raise Violation(PROP, "BatchReactor.fit", "result_key_missing", cond, {"entry": e, "keys": list(o) if isinstance(o, dict) else repr(o)})
             got = list(got)
+            if got != refs[i] and i in R.get("edited", ()) and out_twin is not None:
+                # the entry dict was edited by the caller after construction. Two readings are legitimate: the current
+                # content (what the library does today) or a snapshot taken when the reactor was built - provided
+                # the reading does not depend on the number of workers (the twin must agree)
+                old_ref = None
+                with _Pristine(world):
+                    old_ref = reference(R["built_with"][i], smis, op["invert"], cfg["strategy"], cfg["mode"], cfg["dedupe"])
+                tw = out_twin[i]
+                tw_list = tw.get(key) if isinstance(tw, dict) else None
+                if got == old_ref and tw_list is not None and list(tw_list) == got:
+                    summary.append(len(got))
+                    continue
             if got != refs[i]:
                 cls = "entry_result_differs_from_alone"
                 where = [j for j, r in enumerate(refs) if r == got and j != i]
@@ -424,7 +452,15 @@ def _run(case: Dict[str, Any], sim: Sim, world: World) -> None:
             if o.get("count") != len(got):
                 raise Violation(PROP, "BatchReactor.fit", "count_mismatch", cond, {"count": o.get("count"), "len": len(got)})
             summary.append(len(got))
-        for o in out:                                  # returned lists belong to the caller: editing them must not matter later
+        if out_twin is not None:
+            a_ = [list(o.get(key) or []) if isinstance(o, dict) else None for o in out]
+            b_ = [list(o.get(key) or []) if isinstance(o, dict) else None for o in out_twin]
+            if a_ != b_:
+                bad = [i for i, (x, y) in enumerate(zip(a_, b_)) if x != y]
+                raise Violation(PROP, "BatchReactor.fit", "result_depends_on_worker_count", cond,
+                                {"entries": [R["entries"][i] for i in bad[:3]], "entry_jobs": [cfg["entry_jobs"], 2 if cfg["entry_jobs"] == 1 else 1],
+                                 "edited_after_construction": sorted(R.get("edited", ()))})
+        for o in (out + (out_twin or [])):             # returned lists belong to the caller: editing them must not matter later
             if isinstance(o, dict):
                 for v_ in o.values():
                     if isinstance(v_, list):
@@ -447,7 +483,10 @@ def _run(case: Dict[str, Any], sim: Sim, world: World) -> None:
                 i_ = op["idx"] % len(R["entries"])
                 new_s = subs[op["new"] % len(subs)]
                 R["data"][i_]["smi"] = new_s          # in-place edit of the caller's own dict
+                if R.get("twin_data") is not None:
+                    R["twin_data"][i_]["smi"] = new_s
                 R["entries"][i_] = new_s
+                R["edited"].add(i_)
                 sim.probe("entry_dict_edited_between_fits")
             sim.event("edit_entry", None)
         elif k == "gc":
